@@ -117,7 +117,7 @@ impl World {
                 let i = Shadow::resolve(ino, inos);
                 if i != 1 {
                     if let Some(c) = self.refs.get_mut(&i) {
-                        *c = c.saturating_sub(*count);
+                        *c = c.saturating_sub(*count & !ops::VIA_BATCH);
                     }
                 }
             }
@@ -265,7 +265,12 @@ impl<'a> Gen<'a> {
         };
         match kind {
             "lookup" => Op::Lookup { parent: self.dir_ino(w, tainted), name: self.name() },
-            "forget" => Op::Forget { ino: self.any_ino(w, tainted), count: *self.r.pick(&[1u64, 1, 1, 2, 100]) },
+            "forget" => {
+                // a third of the forgets arrive in a BATCH_FORGET; the root is a target like any other
+                let via = if self.r.chance(1, 3) { ops::VIA_BATCH } else { 0 };
+                let ino = if self.r.chance(1, 6) { Ref::Raw(1) } else { self.any_ino(w, tainted) };
+                Op::Forget { ino, count: *self.r.pick(&[1u64, 1, 1, 2, 100]) | via }
+            }
             "getattr" => {
                 let use_h = self.r.chance(1, 3);
                 if use_h && !cfg.no_open {
